@@ -56,6 +56,11 @@ class FunctionCtx(object):
     def const(self, nm):
         c = self.module.consts.get(nm)
         if c is None:
+            for mi in self.session.modules.values():
+                if nm in mi.consts:
+                    c = mi.consts[nm]
+                    break
+        if c is None:
             return None
         kind, val = c
         if kind == "Val":
@@ -247,6 +252,8 @@ class Executor(object):
 
     def assign_name(self, st, name, val):
         decl = self.fx.types.get(name)
+        if name in self.fx.contract.get("rebinds", ()):
+            decl = self.fx.contract["rebinds"][name].get(val.t.name, None) if isinstance(self.fx.contract["rebinds"], dict) else None
         if decl is None:
             if isinstance(val.t, TNone) or (val.meta and val.meta.get("empty_literal")):
                 raise Outside("local %r needs a declared type" % name)
@@ -287,6 +294,22 @@ class Executor(object):
                 if optwrap is not None:
                     newv = SV(optwrap.some(cx, new), optwrap)
                 self.assign(tgt.value, newv, st, node)
+            elif isinstance(cont.t, TRef):
+                c = self.fx.session.lookup_method(cont.t.cls, "__setitem__")
+                if c is None:
+                    raise Outside("subscript assignment on %s without __setitem__ contract" % cont.t)
+                st.env["$setitem_value"] = val
+                load = copy.deepcopy(tgt.value)
+                sl = copy.deepcopy(tgt.slice)
+                for n in list(ast.walk(load)) + list(ast.walk(sl)):
+                    if hasattr(n, "ctx"):
+                        n.ctx = ast.Load()
+                fake = ast.Call(func=ast.Attribute(value=load, attr="__setitem__", ctx=ast.Load()),
+                                args=[sl, ast.Name(id="$setitem_value", ctx=ast.Load())], keywords=[])
+                ast.copy_location(fake, node)
+                ast.fix_missing_locations(fake)
+                self.fx.calls.contracted(ev, c, cont, fake, st)
+                del st.env["$setitem_value"]
             else:
                 raise Outside("subscript assignment on %s" % cont.t)
         elif isinstance(tgt, (ast.Tuple, ast.List)):
@@ -695,6 +718,8 @@ class Executor(object):
         for o in outs:
             if o.kind in ("normal", "return"):
                 val = o.val if o.kind == "return" else SV(None, TNone())
+                if c.get("ghost_exit"):
+                    o.st = self.ghost(c["ghost_exit"], o.st)
                 if is_gen:
                     val = o.st.env["g_yielded"]
                     rt_ = val.t
